@@ -215,7 +215,10 @@ OnErr(s0, e0) ==
                       "a key is reported unknown although it is known, not denied, or already reported")
             ELSE IF F.ph = "bad" THEN Flag(s1, {"C04"} \cup tagprops \cup scalarprops \cup (IF N.c \in {"arr", "tup"} THEN {"C06"} ELSE {}),
                                            "the report made for a faulty value is of the wrong kind")
-            ELSE Flag(s1, {"C02", "C04"} \cup (IF N.c \in {"enum", "uenum"} THEN {"C10"} ELSE {}) \cup scalarprops, "a report is made that no fault of the payload explains")
+            ELSE Flag(s1, {"C02", "C04"} \cup (IF N.c \in {"enum", "uenum"} THEN {"C10"} ELSE {}) \cup scalarprops
+                          \* a std container that reports where the payload has no fault does not yield the payload's elements (C06)
+                          \cup (IF N.c \in {"vec", "hset", "bset", "arr", "tup", "opt", "box", "hmap", "bmap", "cs"} THEN {"C06"} ELSE {}),
+                      "a report is made that no fault of the payload explains")
 
 OnMrg(s, e) ==
     IF s.phase # "running" \/ Len(s.stack) = 0 THEN Flag(s, {"CONF"}, "merge outside a running call")
